@@ -153,7 +153,7 @@ func gen(r *verifsim.Rng, tier string) (any, hx.Sched) {
 		w.ArrayPayload = r.Intn(3) == 0
 		w.Nested = r.Intn(4) == 0
 		if !w.ArrayPayload {
-			w.Payload = verifsim.Pick(r, []string{"", "", "int", "float", "loopint", "numstr", "obj"})
+			w.Payload = verifsim.Pick(r, []string{"", "", "int", "float", "loopint", "numstr", "obj", "keyed"})
 		}
 		w.SharedProd = !w.ArrayPayload && w.Payload == "" && r.Intn(4) == 0
 		if r.Intn(8) == 0 {
